@@ -1092,3 +1092,101 @@ func (a *idxAnalysis) coAppendSpace(ap *ast.AssignStmt, obj types.Object) string
 	}
 	return "filter(" + a.fs.key + "." + strings.Join(names, "+") + ")"
 }
+
+// SparseFill is an indexed store v[i] = x into a pointer slice created with a non-zero length, where the
+// store can be skipped for some index (conditional, or after a continue): the slice then keeps nil entries.
+type SparseFill struct {
+	Fn   string
+	Var  string
+	Pos  token.Pos
+	Make token.Pos
+}
+
+// SparseFills finds such slices in the functions of a package.
+func (e *IdxEngine) SparseFills(rel string) []SparseFill {
+	var out []SparseFill
+	for _, fo := range e.FuncsOfPkg(rel) {
+		fs := e.decls[fo]
+		a := &idxAnalysis{e: e, fs: fs, info: fs.pkg.TypesInfo, sum: &FuncSummary{}, params: map[types.Object]int{},
+			varSpace: map[types.Object]string{}, idxSpace: map[types.Object]string{}, mapVal: map[types.Object]string{}, parent: map[ast.Node]ast.Node{}}
+		var stack []ast.Node
+		ast.Inspect(fs.decl.Body, func(n ast.Node) bool {
+			if n == nil {
+				stack = stack[:len(stack)-1]
+				return true
+			}
+			if len(stack) > 0 {
+				a.parent[n] = stack[len(stack)-1]
+			}
+			stack = append(stack, n)
+			return true
+		})
+		// slices made with non-zero length and pointer/interface elements
+		made := map[types.Object]token.Pos{}
+		ast.Inspect(fs.decl.Body, func(n ast.Node) bool {
+			as, ok := n.(*ast.AssignStmt)
+			if !ok || len(as.Lhs) != 1 || len(as.Rhs) != 1 {
+				return true
+			}
+			id, ok := as.Lhs[0].(*ast.Ident)
+			if !ok {
+				return true
+			}
+			call, ok := as.Rhs[0].(*ast.CallExpr)
+			if !ok || len(call.Args) < 2 {
+				return true
+			}
+			if f, ok := call.Fun.(*ast.Ident); !ok || f.Name != "make" {
+				return true
+			}
+			if lit, ok := call.Args[1].(*ast.BasicLit); ok && lit.Value == "0" {
+				return true
+			}
+			t := a.info.TypeOf(call.Args[0])
+			sl, ok := t.Underlying().(*types.Slice)
+			if !ok {
+				return true
+			}
+			switch sl.Elem().Underlying().(type) {
+			case *types.Pointer, *types.Interface:
+			default:
+				return true
+			}
+			if obj := a.info.ObjectOf(id); obj != nil {
+				made[obj] = as.Pos()
+			}
+			return true
+		})
+		if len(made) == 0 {
+			continue
+		}
+		ast.Inspect(fs.decl.Body, func(n ast.Node) bool {
+			as, ok := n.(*ast.AssignStmt)
+			if !ok || len(as.Lhs) != 1 {
+				return true
+			}
+			ix, ok := as.Lhs[0].(*ast.IndexExpr)
+			if !ok {
+				return true
+			}
+			id, ok := ix.X.(*ast.Ident)
+			if !ok {
+				return true
+			}
+			obj := a.info.ObjectOf(id)
+			mk, isMade := made[obj]
+			if !isMade {
+				return true
+			}
+			l := a.enclosingLoop(as)
+			if l == nil {
+				return true
+			}
+			if !a.unconditionalIn(as, l) {
+				out = append(out, SparseFill{Fn: fs.key, Var: id.Name, Pos: as.Pos(), Make: mk})
+			}
+			return true
+		})
+	}
+	return out
+}
